@@ -38,6 +38,62 @@ def mutate(rng: random.Random, data: bytes) -> bytes:
     return bytes(b)
 
 
+def leaf_paths(a, cls, path=()):
+    """paths to the string / bytes leaves of an abstract instance (first two elements of arrays),
+    with the dataclass field they belong to"""
+    import dataclasses
+    import typing
+    hints = typing.get_type_hints(cls)
+    for j, (f, x) in enumerate(zip(dataclasses.fields(cls), a[1])):
+        sub = values.leaf_type(hints[f.name])
+        if x[0] in ("S", "Y"):
+            yield path + (j,), f
+        elif x[0] == "E":
+            yield from leaf_paths(x, sub, path + (j,))
+        elif x[0] == "A":
+            for k, y in enumerate(x[1][:2]):
+                if y[0] == "E":
+                    yield from leaf_paths(y, sub, path + (j, k))
+                elif y[0] in ("S", "Y"):
+                    yield path + (j, k), f
+
+
+def set_path(a, path, leaf):
+    if not path:
+        return leaf
+    items = list(a[1])
+    items[path[0]] = set_path(items[path[0]], path[1:], leaf)
+    return (a[0], items)
+
+
+def null_marker_cases(cls, a, rng, limit=3):
+    """encodings in which the length prefix of one string / bytes / records leaf (at any depth) says
+    *null*: found by encoding the instance with that leaf empty and with one byte, and overwriting the
+    length prefix where the two encodings first differ"""
+    out = []
+    paths = list(leaf_paths(a, cls))
+    rng.shuffle(paths)
+    for path, f in paths[:limit]:
+        kind = "S" if f.metadata.get("kafka_type") == "string" else "Y"
+        e0 = codec.encode_real(cls, values.build(set_path(a, path, (kind, b"")), cls))
+        e1 = codec.encode_real(cls, values.build(set_path(a, path, (kind, b"x")), cls))
+        if not (e0.startswith("ok") and e1.startswith("ok")):
+            continue
+        b0, b1 = values.unhex_tok(e0.split()[1]), values.unhex_tok(e1.split()[1])
+        if len(b1) != len(b0) + 1:
+            continue
+        p = next((k for k in range(len(b0)) if b0[k] != b1[k]), None)
+        if p is None:
+            continue
+        if b0[p] == 1 and b1[p] == 2:                      # compact length (n + 1): 0 means null
+            out.append(b0[:p] + b"\x00" + b0[p + 1:])
+        elif b0[p] == 0 and b1[p] == 1:                    # legacy length: -1 means null
+            w = 2 if kind == "S" else 4
+            if p + 1 >= w:
+                out.append(b0[:p + 1 - w] + b"\xff" * w + b0[p + 1:])
+    return out
+
+
 def run(ctx):
     from kio.serial import entity_reader, entity_writer
 
@@ -64,6 +120,12 @@ def run(ctx):
             else:
                 data = base + bytes(rng.getrandbits(8) for _ in range(3))
             cases.append((i, data))
+        # a null marker where a string / bytes / records value stands, at any nesting depth
+        try:
+            for data in null_marker_cases(cl.cls(i), a, rng, limit=(6 if thorough else 2)):
+                cases.append((i, data))
+        except Exception as e:  # noqa: BLE001 - construction of the probe, not the property
+            ctx.notes.append(f"null-marker probe skipped for {cl.keys[i]}: {type(e).__name__}")
         # known tags with degenerate payloads (null / empty markers, nothing at all, one stray byte):
         # whatever the reader makes of them must be an error of the allowed kind or a value the
         # encoder takes back
